@@ -22,6 +22,9 @@ func TestCheck(t *testing.T) {
 	n := run.N(40000, 1000000)
 	run.Each(n, 8, func(i int) {
 		Case(run, i)
+		if i%8 == 4 {
+			KindTextCase(run, i)
+		}
 		if i%4 == 1 {
 			pagLeg(run, i)
 		}
